@@ -758,6 +758,54 @@ func c03GenT(out *emit.Out, p params, r *rand.Rand, cfg c03Cfg, exhaustive bool)
 	}
 	// the untampered run again: same bytes, same views (determinism is part of what is checked)
 	run("untampered")
+	// a well-formed alteration that no single flip produces: something the hello parsers ignore (an
+	// unknown extension, a server_name entry of an unknown type) is added to the ClientHello / ServerHello
+	// with every enclosing length corrected.  Both ends can only complete if the receiver hashes what it
+	// received, not a re-encoding of what it understood.
+	for dir := 0; dir < 2; dir++ {
+		recs := base.Sent[dir]
+		if len(recs) == 0 || len(recs[0]) < 5+4+2+32+1 || recs[0][0] != 22 {
+			continue
+		}
+		rec := recs[0]
+		body := rec[9:]
+		o := 2 + 32
+		o += 1 + int(body[o]) // session id
+		if dir == 0 {
+			if o+2 > len(body) {
+				continue
+			}
+			o += 2 + (int(body[o])<<8 | int(body[o+1])) // cipher suites
+			if o >= len(body) {
+				continue
+			}
+			o += 1 + int(body[o]) // compression methods
+		} else {
+			o += 3 // suite, compression method
+		}
+		if o+2 > len(body) { // no extension block to extend
+			continue
+		}
+		extLenOff := 9 + o
+		hsLen := int(rec[6])<<16 | int(rec[7])<<8 | int(rec[8])
+		extLen := int(rec[extLenOff])<<8 | int(rec[extLenOff+1])
+		for _, add := range [][]byte{{0xff, 0x77, 0x00, 0x01, 0x00}, {0xff, 0x77, 0x00, 0x00}, {0x00, 0x15, 0x00, 0x03, 0x00, 0x00, 0x00}} {
+			n := len(add)
+			edits := []c03Edit{{Kind: "append", ToServer: dir == 0, Idx: 0, Data: add}}
+			fl := func(off, old, new int) {
+				if old != new {
+					edits = append(edits, c03Edit{Kind: "flip", ToServer: dir == 0, Idx: 0, Off: off, Mask: old ^ new})
+				}
+			}
+			nh, ne := hsLen+n, extLen+n
+			fl(6, hsLen>>16&0xff, nh>>16&0xff)
+			fl(7, hsLen>>8&0xff, nh>>8&0xff)
+			fl(8, hsLen&0xff, nh&0xff)
+			fl(extLenOff, extLen>>8&0xff, ne>>8&0xff)
+			fl(extLenOff+1, extLen&0xff, ne&0xff)
+			run("extend-hello-with-ignored-extension", edits...)
+		}
+	}
 	for dir := 0; dir < 2; dir++ {
 		ts := dir == 0
 		recs := base.Sent[dir]
